@@ -86,19 +86,30 @@ def frameTrace (f : Frame) : List FrameOp → List String → String
     | .err => " ".intercalate ("err" :: acc).reverse
     | .ok (r, f') => frameTrace f' ops ((match r with | some n => s!"o{n}" | none => "oE") :: acc)
 
-def handle (line : String) : String :=
+/-- `F<rem><hint><range><size><shift><abs><expanded><openIndex>` (one `0`/`1` each): which repairs
+the implementation contains (from the status of the findings) -/
+def parseFx (s : String) : Option Fx :=
+  match s.toList with
+  | 'F' :: bits =>
+    if bits.length == 8 ∧ bits.all (fun c => c == '0' || c == '1') then
+      let b (i : Nat) := bits[i]? == some '1'
+      some ⟨b 0, b 1, b 2, b 3, b 4, b 5, b 6, b 7⟩
+    else none
+  | _ => none
+
+def handleFx (fx : Fx) (items : List Sexp) : String :=
   let bad := "bad-request"
-  match parseLine line with
+  match items with
   | [.atom "abr", r] => match parseRange r with
-    | some r => resStr pairStr (asBoundedRange r) | none => bad
+    | some r => resStr pairStr (asBoundedRangeG fx r) | none => bad
   | [.atom "size", r] => match parseRange r with
-    | some r => resStr optIntStr (rangeSize r) | none => bad
+    | some r => resStr optIntStr (rangeSizeG fx r) | none => bad
   | [.atom "contains", r, .atom n] => match parseRange r, containsArg n with
-    | some r, some n => resStr boolStr (rangeContains r n) | _, _ => bad
+    | some r, some n => resStr boolStr (rangeContainsG fx r n) | _, _ => bad
   | [.atom "indices", r, m] => match parseRange r, m.int? with
-    | some r, some m => resStr pairStr (rangeIndices r m) | _, _ => bad
+    | some r, some m => resStr pairStr (rangeIndicesG fx r m) | _, _ => bad
   | [.atom "isect", a, b] => match parseRange a, parseRange b with
-    | some a, some b => resStr optPairStr (rangeIntersection a b) | _, _ => bad
+    | some a, some b => resStr optPairStr (rangeIntersectionG fx a b) | _, _ => bad
   | [.atom "popf", l, s, e, i] => match l.int?, s.int?, e.int?, i.int? with
     | some l, some s, some e, some i => resStr popStr (popFront (l == 1) s e (i == 1)) | _, _, _, _ => bad
   | [.atom "popb", l, s, e, i] => match l.int?, s.int?, e.int?, i.int? with
@@ -108,13 +119,13 @@ def handle (line : String) : String :=
   | [.atom "idxstr", len, .atom n] => match len.int?, numView n with
     | some len, some n => resStr pairStr (runIndexStrNum len n) | _, _ => bad
   | [.atom "idxrange", r, .atom n] => match parseRange r, numView n with
-    | some r, some n => resStr toString (runIndexRangeNum r n) | _, _ => bad
+    | some r, some n => resStr toString (runIndexRangeNumG fx r n) | _, _ => bad
   | [.atom "idxseqrange", len, r] => match len.int?, parseRange r with
-    | some len, some r => resStr pairStr (runIndexSeqRange len r) | _, _ => bad
+    | some len, some r => resStr pairStr (runIndexSeqRangeG fx len r) | _, _ => bad
   | [.atom "asglist", len, .atom n] => match len.int?, numView n with
     | some len, some n => resStr toString (indexAssignListNum len n) | _, _ => bad
   | [.atom "asglistrange", len, r] => match len.int?, parseRange r with
-    | some len, some r => resStr pairStr (indexAssignListRange len r) | _, _ => bad
+    | some len, some r => resStr pairStr (indexAssignListRangeG fx len r) | _, _ => bad
   | [.atom "asgmap", len, .atom n, pair, key] => match len.nat?, numView n, pair.int?, key.nat? with
     | some len, some n, some pair, some key =>
       resStr (fun ks => " ".intercalate (ks.map toString))
@@ -125,35 +136,35 @@ def handle (line : String) : String :=
   | [.atom "tmpidx", len, idx] => match len.int?, idx.int? with
     | some len, some idx => resStr optIntStr (runTempIndexSeq len idx) | _, _ => bad
   | [.atom "tmpidxrange", r, idx] => match parseRange r, idx.int? with
-    | some r, some idx => resStr optIntStr (runTempIndexRange r idx) | _, _ => bad
+    | some r, some idx => resStr optIntStr (runTempIndexRangeG fx r idx) | _, _ => bad
   | [.atom "matchrange", r, idx] => match parseRange r, idx.int? with
     -- a nested pattern `(…, y)` / `(x, …)` on a range: size test (`run_size`), then `run_temp_index`
     | some r, some idx =>
-      (match rangeSize r with
+      (match rangeSizeG fx r with
       | .panic => "panic"
       | .err => "err"
       | .ok none => "ok nomatch"
       | .ok (some sz) =>
-        if sz < 1 then "ok nomatch" else resStr optIntStr (runTempIndexRange r idx))
+        if sz < 1 then "ok nomatch" else resStr optIntStr (runTempIndexRangeG fx r idx))
     | _, _ => bad
   | [.atom "sidx", idx, size] => match idx.int?, size.int? with
     | some idx, some size => resStr toString (signedIndexToUnsigned idx size) | _, _ => bad
   | [.atom "rem", a, b] => match a.int?, b.int? with
     | some a, some b => resStr (fun o => match o with | some v => toString v | none => "nan") (runRemainder a b) | _, _ => bad
   | [.atom "remasg", a, b] => match a.int?, b.int? with
-    | some a, some b => resStr toString (runRemainderAssign a b) | _, _ => bad
+    | some a, some b => resStr (fun o => match o with | some v => toString v | none => "nan") (runRemainderAssignG fx a b) | _, _ => bad
   | [.atom "pow", a, b] => match a.int?, b.int? with
     | some a, some b => resStr toString (powInt a b) | _, _ => bad
   | [.atom "shl", a, .atom n] => match a.int?, numView n with
-    | some a, some n => resStr toString (shiftLeft a n) | _, _ => bad
+    | some a, some n => resStr toString (shiftLeftG fx a n) | _, _ => bad
   | [.atom "shr", a, .atom n] => match a.int?, numView n with
-    | some a, some n => resStr toString (shiftRight a n) | _, _ => bad
+    | some a, some n => resStr toString (shiftRightG fx a n) | _, _ => bad
   | [.atom "abs", a] => match a.int? with
-    | some a => resStr toString (absInt a) | none => bad
+    | some a => resStr toString (absIntG fx a) | none => bad
   | [.atom "stepto", a, b, c] => match a.int?, b.int?, c.int? with
     | some a, some b, some c => resStr (fun _ => "iter") (stepToNew a b c) | _, _, _ => bad
   | [.atom "expanded", s, e, n] => match s.int?, e.int?, n.int? with
-    | some s, some e, some n => resStr pairStr (rangeExpanded s e n) | _, _, _ => bad
+    | some s, some e, some n => resStr pairStr (rangeExpandedG fx s e n) | _, _, _ => bad
   | [.atom "linsert", len, .atom n] => match len.int?, numView n with
     | some len, some n => resStr toString (listInsert len n) | _, _ => bad
   | [.atom "lremove", len, .atom n] => match len.int?, numView n with
@@ -164,12 +175,12 @@ def handle (line : String) : String :=
     | some n => resStr toString (listResize n) | none => bad
   | [.atom "split", .atom i, .atom p, k] => match bytesOfHex i, bytesOfHex p, k.nat? with
     | some i, some p, some k =>
-      let (ps, h) := splitRun i p k ⟨i.length, 0⟩ []
+      let (ps, h) := splitRunH (sizeHintG fx) i p k ⟨i.length, 0⟩ []
       s!"{piecesStr ps} | {resStr toString h}"
     | _, _, _ => bad
   | [.atom "lines", .atom i, k] => match bytesOfHex i, k.nat? with
     | some i, some k =>
-      let (ps, h) := linesRun i k ⟨i.length, 0⟩ []
+      let (ps, h) := linesRunH (sizeHintG fx) i k ⟨i.length, 0⟩ []
       s!"{piecesStr ps} | {resStr toString h}"
     | _, _ => bad
   | [.atom "bytes", len, k] => match len.int?, k.nat? with
@@ -198,5 +209,13 @@ def handle (line : String) : String :=
   | [.atom "peekreg", len, n] => match len.int?, n.int? with
     | some len, some n => resStr optIntStr (peekRegister len n) | _, _ => bad
   | _ => bad
+
+def handle (line : String) : String :=
+  match parseLine line with
+  | .atom f :: rest =>
+    (match parseFx f with
+    | some fx => handleFx fx rest
+    | none => handleFx Fx.none (.atom f :: rest))
+  | items => handleFx Fx.none items
 
 def main : IO Unit := Proto.serve handle
